@@ -35,8 +35,6 @@ struct World {
     rng: StdRng,
     deadline: Duration,
     paused: std::collections::HashSet<(String, String)>,
-    /// nodes that may end a connection by their own decision at any time (short keep-alive timeout)
-    self_closing: std::collections::HashSet<String>,
 }
 
 /// What the driver believes node `n` currently thinks, derived from the log (only used to decide how
@@ -426,35 +424,10 @@ impl World {
                 let alive: Vec<(String, Vec<String>)> =
                     ["A", "B"].iter().filter(|x| self.node(x).alive).map(|x| (x.to_string(), self.node(x).protos.keys().cloned().collect())).collect();
                 let anydir = self.ab.is_none();
-                // Without the proxy a node's obligation to report is only certain when the connection is known
-                // to be gone at the transport level: the other node was killed, or the other node reported
-                // closed without having ended the connection by its own decision (then it saw the transport
-                // fail).  A node that closes a QUIC connection on its own does not necessarily take the QUIC
-                // connection down (substreams held elsewhere keep it up), so its report proves nothing about
-                // the remote side.
-                let certain: Vec<(String, Vec<String>)> = alive
-                    .iter()
-                    .filter(|(x, _)| {
-                        if !anydir {
-                            return true;
-                        }
-                        let o = Self::other(x);
-                        let po = protos_of(self.node(o));
-                        !self.node(o).alive
-                            || (!self.self_closing.contains(o)
-                                && self.log.with(|l| {
-                                    // `o` holds no connection and did not call force_close between its last
-                                    // established report and the closed report that followed it
-                                    let est = l.iter().rposition(|v| is(v, "app_est") && v["n"] == o);
-                                    let closed = est.and_then(|i| l.iter().skip(i).position(|v| is(v, "app_closed") && v["n"] == o).map(|k| i + k));
-                                    match (est, closed) {
-                                        (Some(i), Some(j)) => view(l, o, &po, true).conns == 0 && !l[i..j].iter().any(|v| is(v, "fc_begin") && v["n"] == o),
-                                        _ => false,
-                                    }
-                                }))
-                    })
-                    .cloned()
-                    .collect();
+                // (QUIC connections are closed explicitly by the node that ends them - fix 
+                // "quic: close the QUIC connection when the connection task ends" - so one side's report
+                // means the connection is gone for the other side too, as with tcp / ws)
+                let certain = alive.clone();
                 let al = certain.clone();
                 self.log.wait(self.deadline, move |l| al.iter().all(|(x, qs)| World::settled(l, x, qs, anydir))).await;
                 tokio::time::sleep(Duration::from_millis(150)).await;
@@ -521,12 +494,7 @@ async fn run_scenario(sc: &Value) -> (Vec<Value>, f64, Option<String>) {
     } else {
         (Some(Proxy::start("ab", b.listen, log.clone()).await), Some(Proxy::start("ba", a.listen, log.clone()).await))
     };
-    let mut w = World { log: log.clone(), a, b, ab, ba, transport, rng: StdRng::seed_from_u64(seed), deadline: ms(sc, "deadline_ms", 10_000), paused: Default::default(), self_closing: Default::default() };
-    for x in ["A", "B"] {
-        if sc[x]["ka_ms"].as_u64().unwrap_or(120_000) < 60_000 {
-            w.self_closing.insert(x.to_string());
-        }
-    }
+    let mut w = World { log: log.clone(), a, b, ab, ba, transport, rng: StdRng::seed_from_u64(seed), deadline: ms(sc, "deadline_ms", 10_000), paused: Default::default() };
     let mut why = None;
     for st in sc["steps"].as_array().unwrap() {
         log.push(json!({"e": "step", "op": st["op"], "arg": st}));
